@@ -75,7 +75,7 @@ def x25519_calls(ctx, n):
         k = le(ref.clamp(kb))
         ctx.add('mt.mul', ub.hex(), 'u' + to32(k).hex(), expect=[out.hex()] * 3, cls='u:' + c)
         bits = 'b' + format(k, '0255b')
-        ctx.add('mt.mulbits', ub.hex(), bits, expect=[out.hex()], cls='u:' + c)
+        ctx.add('mt.mulbits', ub.hex(), bits, expect=[out.hex()] * 4, cls='u:' + c)
         if rng.random() < 0.3:
             # public-key derivation through the Edwards basepoint
             ctx.add('mt.mulbaseclamped', kb.hex(), expect=[pk], cls='pk')
